@@ -464,6 +464,18 @@ def _auto_discharge(cg: CG, s: RaiseSite) -> Optional[str]:
         r0 = _scan_engine_discharge(cg, s)
         if r0:
             return r0
+    if s.kind == "getattr" and isinstance(n, ast.Call) and len(n.args) == 2 and isinstance(n.args[0], ast.Name) and n.args[0].id == "self" and isinstance(n.args[1], ast.Constant) and isinstance(n.args[1].value, str) and s.unit.fn.cls is not None:
+        # getattr(self, "name") in a base class: every class that can be the receiver has the attribute
+        an = n.args[1].value
+        m_ = cg.model
+        recvs = [c_ for c_ in cg.instantiated if m_.is_subclass(c_, s.unit.fn.cls)]
+        def has(c_: Any) -> bool:
+            for k_ in m_.mro(c_):
+                if an in k_.methods or an in k_.attrs_val or an in k_.inst_attrs:
+                    return True
+            return False
+        if recvs and all(has(c_) for c_ in recvs):
+            return f"every instantiated subclass ({len(recvs)}) defines `{an}`"
     if s.kind == "subscript" and isinstance(n, ast.Subscript):
         facts = facts_at(n, fn)
         idx = n.slice
@@ -1842,8 +1854,15 @@ def a9(repo: Repo) -> RuleResult:
                         res.bad(Finding("A9", "compiler/bitproto/_main.py", T["fn"].node.lineno, "main", repr(e), f"parse() does not receive traditional_mode = (-O given [and not check-only]) on the path under {p.guard_text()}", witness="bitproto c x.bitproto -O on an extensible schema generates code", tag="main:traditional_mode"))
                 if e.name == "render":
                     seen_render += 1
+                    # positional arguments by the signature of renderer.render
+                    try:
+                        rsig = [a_.arg for a_ in get_model(repo).func("renderer/__init__.py", "render").node.args.args]
+                    except Inconclusive:
+                        rsig = []
                     for k_, want in (("optimization_mode", "enable_optimize"), ("optimization_mode_filter_messages", "filter_messages"), ("optimization_mode_endian", "endian")):
                         v = e.kw.get(k_)
+                        if v is None and k_ in rsig and rsig.index(k_) < len(e.args or []):
+                            v = e.args[rsig.index(k_)]
                         okv = v is not None and (show(v) == want or (v.const_value() is not None and flags.get(want) is not None and bool(v.const_value()) == flags.get(want)))
                         if not okv:
                             res.bad(Finding("A9", "compiler/bitproto/_main.py", T["fn"].node.lineno, "main", repr(e)[:160], f"render() receives {k_}={show(v) if v is not None else None} instead of {want}", tag=f"main:render:{k_}"))
